@@ -4,8 +4,11 @@ import json
 import chunk
 import conn
 import fault
+import inmem
 import ketama
 import metrics
+import multiconn
+import lifecycle
 import lin
 import orca
 import pool
@@ -22,6 +25,9 @@ CHECKS = {
     "C10": fault.check,
     "C12": lin.check_c12,
     "C13": pool.check_c13,
+    "C14": multiconn.check,
+    "C15": lifecycle.check,
+    "C17": inmem.check,
     "C18": metrics.check,
     "C19": ketama.check,
 }
